@@ -207,11 +207,16 @@ CHECKS['C10'] = dict(
     rule='pool of 2-4 objects in raw storage pre-filled with 0x00/0xFF/0xA5/0x5C/random bytes before each placement-new; copy-construct, copy-assign (also self), '
          'move-construct, move-assign, swap (also self), destroy/re-create interleaved with the C01/C02 list histories (counters placed far apart through the guarded hook) '
          'and the C05 queue histories; after each such operation the result is enumerated (handles harvested through forEach) and, for queues, emptyQueue/waitFor(0)/enqueue/process '
-         'are exercised; all later operations on every pool member stay under the model; non-trivial/distinct as C02/C05',
+         'are exercised; all later operations on every pool member stay under the model; heterogeneous containers (HeterCallbackList, HeterEventDispatcher, HeterEventQueue) and containers with '
+         'filters (MixinFilter on EventDispatcher/EventQueue, MixinHeterFilter) get the same treatment in drv_copyheter, with a forced independence probe (mutate one, trigger the other) after every '
+         'structural operation; a memcheck run leaves the pool storage undefined; non-trivial/distinct as C02/C05 (drv_copyheter: >=1 copy, >=1 move, >=1 swap where available, >=1 independence probe)',
     jobs=JS('drv_cblist', 'asan', 'c10', 4000, 150000, M4, shards=4) + JS('drv_queue', 'asan', 'c10', 2100, 80000, MQ, seed_offset=2, shards=4)
          + JS('drv_dispatch', 'asan', 'c10', 2400, 80000, MD, seed_offset=3, shards=4)
+         + JS('drv_copyheter', 'asan17', 'c10', 12000, 300000, [0x07, 0x38], seed_offset=4, shards=4, shards_thorough=8)
+         + JS('drv_copyheter', 'clang-asan17', 'long', 2400, 60000, [0x07, 0x38], seed_offset=6, shards=4, shards_thorough=8)
          + [J('drv_queue', 'O0', 'c10', 42, 1400, opts={'noprefill': '1'}, wrapper=['valgrind', '-q', '--error-exitcode=99', '--undef-value-errors=yes'], seed_offset=5, shards=14, shards_thorough=16, label='memcheck')],
-    assumptions=['content of a moved-from source is not asserted (source is destroyed and re-created)', 'copy/move-assignment into a queue that still has pending events is not generated (the statement does not say what happens to them)'],
+    assumptions=['content of a moved-from source is not asserted (source is destroyed and re-created)', 'copy/move-assignment into a queue that still has pending events is not generated (the statement does not say what happens to them)',
+                 'what swap and move do to FILTER chains is read back, not asserted (the statement speaks of listeners there); observed: move transfers filters, swap leaves them in place'],
     technique='differential runtime monitor with copy/move/swap operations on pre-filled raw storage; ASan+UBSan',
     level_text='Exploration: every copy/move/swap result is checked for content, independence (all later changes to either object are compared with separate models) and full function.',
     level_note='Trusted: models, generator. Uninitialised members are made visible by pre-filling the storage with hostile byte patterns.',
